@@ -85,7 +85,7 @@ pub fn run(ctx: &Ctx) -> ! {
             a_cases.push((ti, col));
         }
     }
-    st.merge(par_for(ctx, "roundtrip", a_cases.len() as u64, 16, |idx, st| {
+    st.merge(vcore::par_for_replayable(ctx, "roundtrip", a_cases.len() as u64, 16, |idx, st| {
         let (ti, col) = &a_cases[idx as usize];
         let dt = &grid[*ti];
         let lays = layouts_2(dt);
@@ -159,7 +159,12 @@ pub fn run(ctx: &Ctx) -> ! {
 
     // ------------------------------------------------------------------ (b) equality is logical
     let eq_len = ctx.pick(2, 3);
-    st.merge(par_for(ctx, "equality", grid.len() as u64, 1, |ti, st| {
+    st.merge(par_for(ctx, "equality", if ctx.replay.is_some() && !vcore::replay_target(ctx).is_some_and(|t| t.0 == "equality") { 0 } else { grid.len() as u64 }, 1, |ti, st| {
+        if let Some((_, order)) = vcore::replay_target(ctx) {
+            if order / 1_000_000 != ti {
+                return;
+            }
+        }
         let dt = &grid[ti as usize];
         let cols = columns(dt, letters, eq_len, true);
         // dict-null-value changes *physical* validity, which `==` is documented to compare: keep it apart
@@ -215,7 +220,7 @@ pub fn run(ctx: &Ctx) -> ! {
             c_cases.push((ti, col));
         }
     }
-    st.merge(par_for(ctx, "congruence", c_cases.len() as u64, 4, |idx, st| {
+    st.merge(vcore::par_for_replayable(ctx, "congruence", c_cases.len() as u64, 4, |idx, st| {
         let (ti, col) = &c_cases[idx as usize];
         let dt = &grid[*ti];
         let lays = if ctx.quick() { layouts_1(dt) } else { layouts_2(dt) };
@@ -274,7 +279,7 @@ pub fn run(ctx: &Ctx) -> ! {
     }));
 
     // ------------------------------------------------------------------ (d) commutation with selection
-    st.merge(par_for(ctx, "commutation", c_cases.len() as u64, 4, |idx, st| {
+    st.merge(vcore::par_for_replayable(ctx, "commutation", c_cases.len() as u64, 4, |idx, st| {
         let (ti, col) = &c_cases[idx as usize];
         let dt = &grid[*ti];
         if col.is_empty() {
